@@ -21,6 +21,10 @@ CHECKS = {
          "AuthorizeKey grants access iff user lookup, open and parse all succeeded and the (fully symbolic) key equals one of the parsed keys - every failure combination refuses; the real parser (bufio.Scanner, TrimSpace, ParseDHPublicKey, base64) on files assembled from 8 line kinds x up to 3 lines grants only well-formed files that list the key; grant fallback: only when enabled, only for exactly (user,key), consumed once, over all histories of up to 3 AddAuthGrant operations. checkAuthorization's glue (tube accept, user-auth message) is not covered.",
          "File system, user lookup and (in the first harness) the parser are nondeterministic stubs; the parser harness uses concrete line texts chosen by the solver.",
          "SSA symbolic execution + SMT (z3), iff-obligations over failure combinations and grant histories"),
+ "C06": ("DESIGN.md §5 C06",
+         "The principal's real request handler run for 2 (quick) / 3 (thorough) consecutive requests with fully symbolic intents against every combination of approval verdict, target set-up outcome (unreachable / handshake then success / handshake then failure), send failure and target answer: an intent is forwarded only after the callback approved that same intent in that request, field for field; exactly one answer per request; 'confirmed' iff the target confirmed; other-target requests are denied unforwarded. Target side: confirmation iff policy accepted and the grant was stored. The forwarded message re-decodes to the approved intent (real codecs).",
+         "The four message functions are replaced by recorders in the principal/target harnesses (replay=none); the hopclient glue that wires the callback into the handshake is not covered.",
+         "SSA symbolic execution + SMT (z3), bounded request sequences with nondeterministic callbacks"),
  "C07": ("DESIGN.md §5 C07",
          "checkCmd from an arbitrary list of up to 2 (quick) / 3 (thorough) grants with symbolic type (all 256 values), start, expiry, command text and principal, symbolic request and clock: succeeds iff a grant of the matching type is effective, unexpired and (commands) textually identical; exactly that grant is consumed and the rest kept in order; startCodex for a grant session goes ahead iff checkCmd accepted; one pass of the session's tube loop dispatches only execution for grant sessions (two recorded known findings: port-forward and authgrant tubes are not gated).",
          "Clock and user lookup are the repo's own thunks set by the harness; tube/muxer methods and exec-message parsing are stubs; go statements are recorded, not run.",
